@@ -759,7 +759,7 @@ class iindex(dict):
             if not hasattr(coords, "__iter__"):
                 coords = (coords,)
 
-            new_coord = mapping.get(coords[0])
+            new_coord = mapping.get(coords[0], coords[0])
             if new_coord == new_common:
                 # More than one coord maps to the new common coord.
                 # Skip, but flag so that common is shifted below.
